@@ -207,8 +207,20 @@ func Harness_C16_Delta() {
 	news := make([]int, 2)
 	pkOld := make([]bool, 2)
 	pkNew := make([]bool, 2)
-	tbCols := func() map[string]*sysl.Type {
+	// the referenced key tb.id is an int in the new version; in the old version it may have
+	// been a string (then a column referring to it was a varchar (50))
+	tbWasString := nd.Bool("referenced-key-was-a-string")
+	tbCols := func(old bool) map[string]*sysl.Type {
+		if old && tbWasString {
+			return map[string]*sysl.Type{"id": c16Prim(sysl.Type_STRING, 2, 0, "pk")}
+		}
 		return map[string]*sysl.Type{"id": c16Prim(sysl.Type_INT, 2, 0, "pk")}
+	}
+	oldType := func(state int) string {
+		if state == 4 && tbWasString {
+			return "varchar (50)"
+		}
+		return c16TypeName(state)
 	}
 	oldCols := map[string]*sysl.Type{"id": c16Prim(sysl.Type_INT, 11, 0, "pk")}
 	newCols := map[string]*sysl.Type{"id": c16Prim(sysl.Type_INT, 11, 0, "pk")}
@@ -223,9 +235,11 @@ func Harness_C16_Delta() {
 		if c := c16Col(news[k], 12+k, pkNew[k]); c != nil {
 			newCols[nm] = c
 		}
+		// a column that stays a reference while its target is re-typed is not examined here
+		nd.Assume(!(tbWasString && olds[k] == 4 && news[k] == 4))
 	}
-	oldApp := &sysl.Application{Types: map[string]*sysl.Type{"tb": c16Table(1, tbCols()), "ta": c16Table(10, oldCols)}}
-	newApp := &sysl.Application{Types: map[string]*sysl.Type{"tb": c16Table(1, tbCols()), "ta": c16Table(10, newCols)}}
+	oldApp := &sysl.Application{Types: map[string]*sysl.Type{"tb": c16Table(1, tbCols(true)), "ta": c16Table(10, oldCols)}}
+	newApp := &sysl.Application{Types: map[string]*sysl.Type{"tb": c16Table(1, tbCols(false)), "ta": c16Table(10, newCols)}}
 	v := MakeDatabaseScriptView("t", nil)
 	outs := v.ProcessModSysls(map[string]*sysl.Application{"App": oldApp}, map[string]*sysl.Application{"App": newApp},
 		[]string{"App"}, "out", "postgres")
@@ -235,7 +249,7 @@ func Harness_C16_Delta() {
 	}
 	out := outs[0].content
 	nd.Assert("delta:no-create-for-retained", strings.Count(out, "CREATE TABLE") == 0)
-	same := true
+	same := !tbWasString
 	pkChanged := false
 	for k, nm := range names {
 		o, n := olds[k], news[k]
@@ -266,7 +280,7 @@ func Harness_C16_Delta() {
 			nd.Assert("delta:absent-column-untouched", !strings.Contains(out, " "+nm+" ") && !strings.Contains(out, " "+nm+";"))
 		default:
 			nd.Assert("delta:retained-column-not-dropped", strings.Count(out, drop) == 0 && strings.Count(out, add) == 0)
-			if c16TypeName(o) != c16TypeName(n) {
+			if oldType(o) != c16TypeName(n) {
 				nd.Assert("delta:type-change-altered", strings.Count(out, retype+c16TypeName(n)+";\n") == 1)
 			} else if o == n {
 				nd.Assert("delta:same-type-not-altered", strings.Count(out, retype) == 0)
